@@ -1,6 +1,7 @@
 import Driver.Proto
 import Selene.Filter.Spec
 import Selene.Filter.ForestOf
+import Selene.Filter.SynOf
 import Selene.Generated.Lints
 import Selene.Props.C10
 namespace Driver.C08
@@ -106,7 +107,10 @@ def handleFilter : Handler := fun input impl =>
           let changed := unf.filter fun d => Spec.verdict activeFilters firstCode d != some d
           -- hypothesis of `C08_machine`: the accepted inline filters are the pre-order of a well-formed forest
           let forest := forestOf (filters.filter fun f => !f.cfg.global)
-          let tags := tags0 ++ (if forest.isSome then ["forest-hypothesis-holds"] else ["forest-hypothesis-fails"]) ++ (if !changed.isEmpty then ["changes-something"] else []) ++
+          -- hypothesis of `C08_visitor`: the nodes that carry comments are the pre-order of a well-formed syntax tree
+          let tree := synOf nodes
+          let tags := tags0 ++ (if forest.isSome then ["forest-hypothesis-holds"] else ["forest-hypothesis-fails"]) ++
+            (if tree.isSome then ["syntax-tree-hypothesis-holds"] else ["syntax-tree-hypothesis-fails"]) ++ (if !changed.isEmpty then ["changes-something"] else []) ++
             (if out.failures.any (fun f => match f with | .conflict _ _ => true | _ => false) then ["conflict"] else []) ++
             (if out.failures.any (fun f => match f with | .globalLate _ => true | _ => false) then ["global-late"] else []) ++
             (if unf.any (fun d => (activeFilters.filter (fun f => Spec.covers f d)).length ≥ 2) then ["nested-same-lint"] else [])
